@@ -123,7 +123,9 @@ def run_harnesses(pid, specs, jobs=None):
     def go(item):
         k, chunk = item
         stubbing = any(s.get("stubs") for s in chunk)
-        return run_chunk("%s-%d" % (pid, k), [s["name"] for s in chunk], stubbing, timeout_s)
+        # the per-harness timeout bounds every harness; the chunk gets room for all of them
+        chunk_timeout = max(timeout_s, HARNESS_TIMEOUT_S * len(chunk) + 600)
+        return run_chunk("%s-%d" % (pid, k), [s["name"] for s in chunk], stubbing, chunk_timeout)
 
     with ThreadPoolExecutor(max(1, len(chunks))) as ex:
         outs = list(ex.map(go, enumerate(chunks)))
